@@ -351,7 +351,7 @@ fn f64_specials(min: u32) -> Vec<f64> {
 fn f64_around(p: u32, b: u32) -> Vec<f64> {
     let (pf, bf) = (f32::from_bits(p) as f64, f32::from_bits(b) as f64);
     let mid = 0.5 * (pf + bf);
-    vec![bf, down64(bf), up64(bf), mid, down64(mid), up64(mid), pf, 0.5 * (mid + bf), 0.5 * (mid + pf)]
+    vec![bf, down64(bf), up64(bf), mid, down64(mid), up64(mid), pf]
 }
 
 fn emit_f64(o: &mut Out, enc: &str, f: &dyn Fn(f64) -> i32, xs: &[f64]) {
@@ -433,7 +433,7 @@ fn drive16(o: &mut Out, thorough: bool, seed: u64, threads: usize) {
         emit_spec(o, PP, "raw", &raw, b);
     }
     let stride: usize = if thorough { 1 } else { 16 };
-    let dec_stride: usize = if thorough { 1 } else { 64 };
+    let dec_stride: usize = if thorough { 1 } else { 256 };
     // points: both ends of every table segment (65536 patterns each)
     let mut mags: Vec<u32> = vec![];
     let mut b0 = PP_MIN;
@@ -539,14 +539,23 @@ fn curve_inputs<F: Fl>(knees: &[f64], dense: usize, rng: &mut Sm64) -> Vec<F> {
     v
 }
 
+/// one sorted traversal of a curve. The recording is cut into sections of at most 120 points, each opened by a `reset`
+/// and by a repetition of the last point of the section before it, so that TLC can validate the sections in parallel
+/// without losing a single monotonicity comparison.
 fn curve_group<F: Fl>(o: &mut Out, enc: &str, dir: &str, xs: &[F], f: &dyn Fn(F) -> F, g: &dyn Fn(F) -> F) {
-    o.ev("reset", json!({"enc": enc, "t": F::NAME, "dir": dir}));
-    for &x in xs {
-        o.evals += 2;
-        match catch(|| { let y = f(x); (y, g(y)) }) {
-            Ok((y, back)) => o.ev("curve", json!({"enc": enc, "t": F::NAME, "dir": dir, "x": x.ex(), "y": y.ex(), "back": back.ex()})),
-            Err(m) => o.ev("curve", json!({"enc": enc, "t": F::NAME, "dir": dir, "x": x.ex(), "y": [2, 0], "back": [2, 0], "panic": 1, "msg": m})),
+    let mut last: Option<Value> = None;
+    for (i, &x) in xs.iter().enumerate() {
+        if i % 120 == 0 {
+            o.ev("reset", json!({"enc": enc, "t": F::NAME, "dir": dir}));
+            if let Some(v) = last.clone() { o.ev("curve", v); }
         }
+        o.evals += 2;
+        let v = match catch(|| { let y = f(x); (y, g(y)) }) {
+            Ok((y, back)) => json!({"enc": enc, "t": F::NAME, "dir": dir, "x": x.ex(), "y": y.ex(), "back": back.ex()}),
+            Err(m) => json!({"enc": enc, "t": F::NAME, "dir": dir, "x": x.ex(), "y": [2, 0], "back": [2, 0], "panic": 1, "msg": m}),
+        };
+        o.ev("curve", v.clone());
+        last = Some(v);
     }
 }
 
